@@ -108,8 +108,13 @@ def Signature(item):
     # extra whitespace next to the mandatory single spaces of an import
     construct = 'import-extra-whitespace'
   elif (d['kind'] == 'accept' and d['py'] == 'rej' and d['cpp'] == 'ok' and
-        re.search(r'[A-Za-z0-9_]\[\s*\]', text)):
+        re.search(r'[A-Za-z0-9_]\[[\s()]*\]', text)):
     construct = 'empty-subscript'
+  elif (d['kind'] == 'accept' and
+        re.search(r'\|(,|;|:-|:|=|\?)|(,|;|:-|:|=|\?)\|', text)):
+    # a separator directly next to a `|` (PY's "||" hack covers every
+    # separator, CPP's only the separator `|`)
+    construct = 'separator-next-to-pipe'
   sig['construct'] = construct
   return sig
 
